@@ -43,7 +43,10 @@ NUMBERS = [b'0', b'1', b'2', b'10', b'255', b'0.5', b'1.5', b'5.', b'.5', b'.25'
 STRINGS = [b'""', b'"s"', b"'s'", b'"a b"', b'"it\'s"', b'"\\n"', b'"\\65\\066"', b'"\\0001"', b'"\x8e\x97"',
            b'[[ls]]', b'[=[l]]s]=]', b'"--x"', b'"\\x41"', b'"\\""', b"'\\''", b'"\\\\"', b'"1"', b'[[\nml]]',
            b'"\\14"', b'"\\*\\^"', b'"x=1"', b'"%d"', b'[[a \nb\t\n c]]', b'[==[\n x  \n]==]', b'"  lead"', b'" "',
-           b'"tail\\z  "', b'[[#..# \n#..#\t\n]]']
+           b'"tail\\z  "', b'[[#..# \n#..#\t\n]]',
+           # strings whose content is spelled like a keyword or symbol; blank-only lines inside long strings
+           b'"nil"', b'"true"', b"'false'", b'"end"', b'[[do]]', b'"("', b'"["', b'"{"', b'"."', b'"="', b'","', b'"..."',
+           b'"::"', b'[[#\n   \n#]]', b'[[a\n \n\t\nb]]', b'"-"', b'"--"', b"'not'"]
 
 
 class Cfg:
